@@ -652,6 +652,21 @@ def c08(tier):
                        nontrivial_keys=("ready.yes", "ready.no"), view_label=label)
         run.submit(p1_job, "rdy-f32-n%d" % n, "MC_Obs", {"prop": "C08", "cfgs": catalogue(n), "alphabet": [-1, 0, 1], "unit": 1, "maxlen": 6, "float": "f32"},
                    nontrivial_keys=("ready.yes", "ready.no"), view_label=label)
+    # f32: a jump 2^25 times the moves that follow (a small move absorbed by a large running sum), finite and no relapse; and
+    # magnitudes of a few hundred through every view over Tanh (exp overflows early in f32)
+    rj = random.Random(818 + run.seed)
+    for prof in ("dev", "release"):
+        sj = []
+        for cfg in catalogue(3):
+            xs = []
+            while len(xs) < 200:
+                xs += [[rj.randint(1, 4), 25] for _ in range(rj.randint(1, 4))] + [[rj.randint(1, 8), 0] for _ in range(rj.randint(2, 7))]
+            sj.append({"cfg": cfg, "unit": 1, "mode": "alive", "eps": [1, 1], "float": "f32", "pairs": True, "xs": xs[:200], "k": 1})
+        run.submit(p3_stream_job, "rdy-f32-jumps-%s" % prof, "C08", sj, profile=prof)
+    big = [with_child(o, {"k": "Tanh"}) for o in catalogue(2) if o["k"] not in ("Echo", "Constant", "Add", "Subtract", "Multiply", "Divide", "Tanh")] + [{"k": "Tanh"}]
+    for flt in ("f32", "f64"):
+        run.submit(p1_job, "rdy-large-%s" % flt, "MC_Obs", {"prop": "C08", "cfgs": big, "alphabet": [-300, 0, 50, 300], "unit": 1, "maxlen": 4, "float": flt},
+                   nontrivial_keys=("ready.yes", "ready.no"), view_label=label)
     # chains: an inner view delays / thins what the outer one is delivered
     inners = [sma(2), {"k": "Roc", "n": 1}, {"k": "LaguerreRSI", "n": 2}] + ([sma(3), {"k": "Rsi", "n": 2}] if tier != "quick" else [])
     for inner in inners:
@@ -685,6 +700,9 @@ def c15(tier):
             run.submit(p1_job, "np-pos-n%d-%s" % (n, prof), "MC_Obs", {"prop": "C15", "cfgs": catalogue(n, positive=True), "alphabet": [1, 2, 4], "unit": 2, "maxlen": L},
                    profile=prof, nontrivial_keys=nk, view_label=label)
         if prof == "dev":
+            bigc = [with_child(o, {"k": "Tanh"}) for o in catalogue(2) if o["k"] not in ("Echo", "Constant", "Add", "Subtract", "Multiply", "Divide", "Tanh")] + [{"k": "Tanh"}]
+            run.submit(p1_job, "np-f32-large", "MC_Obs", {"prop": "C15", "cfgs": bigc, "alphabet": [-300, 0, 50, 300], "unit": 1, "maxlen": 4, "float": "f32"},
+                       profile=prof, nontrivial_keys=nk, view_label=label)
             for n in (1, 2, 3):
                 run.submit(p1_job, "np-f32-n%d" % n, "MC_Obs", {"prop": "C15", "cfgs": catalogue(n), "alphabet": [-1, 0, 1], "unit": 1, "maxlen": 5, "float": "f32"},
                            profile=prof, nontrivial_keys=nk, view_label=label)
@@ -1073,6 +1091,10 @@ def c16(tier):
                           "xs": walk(rnd, 600 if tier == "quick" else 3000, 10, 10000, 400, grain=10), "k": 3})
     rec32.append({"cfg": {"k": "LaguerreFilter", "g": [4, 5]}, "unit": 1000, "mode": "machine", "eps": [1, 100], "float": "f32",
                   "xs": walk(rnd, 600, 10, 10000, 400, grain=10), "k": 3})
+    # a high level relative to the spread (32768.000 .. 32768.999) in a long window, f32: level-dependent shortcuts
+    for k in ("Vsct", "Vst", "WelfordOnline", "HLNormalizer", "Sma", "CorrelationTrendIndicator"):
+        rec32.append({"cfg": {"k": k, "n": 129}, "unit": 1000, "mode": "window", "eps": [1, 100], "float": "f32",
+                      "xs": [32768000 + rnd.randint(0, 999) for _ in range(330)], "k": 3})
     run.submit(p3_stream_job, "f32-recursive", "C16", rec32)
     run.submit(p3_stream_job, "flat-tail-a", "C16", tails[:len(tails) // 2])
     run.submit(p3_stream_job, "flat-tail-b", "C16", tails[len(tails) // 2:])
